@@ -42,7 +42,8 @@ def name_menu(kind, ver):
         m.append(("builtin-other", BUILTIN_OTHER[kind]))
     m += [("upper", "X-Verif-a" + sfx), ("underscore", "x_verif_a" + sfx), ("short", "xv"), ("long251", "x" + "a" * (250 - len(sfx)) + sfx), ("empty", ""),
           ("nonascii", "x-vérif" + sfx), ("digit", "1x-verif" + sfx), ("dhyphen", "x--verif" + sfx), ("len3", "x-a" if not sfx else "a" + sfx[:2]),
-          ("len250", "x" + "a" * (249 - len(sfx)) + sfx)]
+          ("len250", "x" + "a" * (249 - len(sfx)) + sfx), ("arabic-indic-digit", "x-verif-\u0663" + sfx), ("fullwidth-digit", "x-verif\uff17" + sfx),
+          ("trailing-newline", "x-verif-a" + sfx + "\n")]
     if kind == "extension" and ver == "2.1":
         m.append(("noext", "x-verif-noext"))
     return m
@@ -61,12 +62,18 @@ def all_events():
                     "property-extension" if flavour == "prop" else "toplevel-property-extension"})
     evs.append({"kind": "object", "ver": "2.1", "name_kind": "fresh-c+extension_name", "name": "x-verif-c", "props": "valid", "extension_name": EXTDEF["newsdo"]})
     evs.append({"kind": "object", "ver": "2.1", "name_kind": "fresh-c+extension_name2", "name": "x-verif-c", "props": "valid", "extension_name": EXTDEF["newsdo"][:-1] + "d"})
+    # the implicit extension of a new type: taken extension names must be refused and must not disturb the first owner
+    evs.append({"kind": "object", "ver": "2.1", "name_kind": "fresh-f+extension_name-of-c", "name": "x-verif-f", "props": "valid", "extension_name": EXTDEF["newsdo"]})
+    evs.append({"kind": "observable", "ver": "2.1", "name_kind": "fresh-d+extension_name3", "name": "x-verif-d", "props": "valid", "extension_name": EXTDEF["newsdo"][:-1] + "e"})
+    evs.append({"kind": "observable", "ver": "2.1", "name_kind": "fresh-e+extension_name3", "name": "x-verif-e", "props": "valid", "extension_name": EXTDEF["newsdo"][:-1] + "e"})
+    evs.append({"kind": "observable", "ver": "2.1", "name_kind": "fresh-g+extension_name-of-c", "name": "x-verif-g", "props": "valid", "extension_name": EXTDEF["newsdo"]})
     return evs
 
 
 def core_events():
     return [e for e in all_events() if e["props"] == "valid" and e["name_kind"] in ("fresh-a", "fresh-b", "builtin-same", "builtin-other", "extdef-prop", "extdef-top",
-                                                                                    "fresh-c+extension_name", "fresh-c+extension_name2")]
+                                                                                    "fresh-c+extension_name", "fresh-c+extension_name2", "fresh-f+extension_name-of-c", "fresh-d+extension_name3",
+                                                                                    "fresh-e+extension_name3", "fresh-g+extension_name-of-c")]
 
 
 def name_rule(name, kind, ver):
@@ -74,7 +81,7 @@ def name_rule(name, kind, ver):
     import re
     if kind == "extension" and name.startswith("extension-definition--"):
         return "valid" if ver == "2.1" else "either"
-    if not re.match(r"^[a-z0-9-]*$", name) or not (3 <= len(name) <= 250):
+    if not re.match(r"^[a-z0-9-]*\Z", name) or not (3 <= len(name) <= 250):
         return "invalid"
     if name[0].isdigit() or name[0] == "-":
         return "invalid" if ver == "2.1" else "either"
@@ -128,6 +135,8 @@ def do_register(ev):
             return mod.CustomObject(ev["name"], props, extension_name=ev["extension_name"])(Body)
         return mod.CustomObject(ev["name"], props)(Body)
     if kind == "observable":
+        if ev.get("extension_name"):
+            return mod.CustomObservable(ev["name"], props, extension_name=ev["extension_name"])(Body)
         return mod.CustomObservable(ev["name"], props)(Body)
     if kind == "marking":
         return mod.CustomMarking(ev["name"], props)(Body)
@@ -276,6 +285,8 @@ def run_history(item, part):
         shared_before = {v: [x if isinstance(x, str) else x[0] for x in t] for v, t in _SHARED.items()}
         nr, pr = name_rule(ev["name"], ev["kind"], ev["ver"]), props_rule(ev["props"], ev["kind"], ev["ver"])
         taken = model.taken(ev["ver"], cat, ev["name"])
+        if not taken and ev.get("extension_name") and model.taken(ev["ver"], "extensions", ev["extension_name"]):
+            taken = "same-category"          # the implicit extension's name is taken: the whole registration is a duplicate
         try:
             cls = do_register(ev)
             err = None
